@@ -233,7 +233,10 @@ def dispatch (op : String) (j : Json) : Except String Json := do
       | none => return obj [("err", Json.str "ValueError")]
   | "csv-write" =>
       let fields ← getStrs (← field j "row")
-      return obj [("line", Json.str (strOf (writeRow (fields.map String.toList))))]
+      return obj [("line", Json.str (strOf (csvLine (fields.map String.toList)))), ("minimal", Json.str (strOf (writeRow (fields.map String.toList))))]
+  | "hex4" =>
+      let ns ← getNats (← field j "cps")
+      return obj [("hex", jStrs (ns.map fun n => strOf (hex4 n))), ("back", Json.arr ((ns.map fun n => jI (Int.ofNat (parseHex (hex4 n)))).toArray))]
   | "csv-read" =>
       let line ← getStr (← field j "line")
       match readRow true line.toList with
